@@ -100,6 +100,10 @@ def parse_unit(path, _included=None):
                     _included.add(inc)
                     sub = parse_unit(os.path.join(VERIF, inc), _included)
                     segs.append(("text", f"// ---- include {inc}"))
+                    # functions of an included unit keep that unit's property list (not the includer's)
+                    for (k_, seg_) in sub["segments"]:
+                        if k_ == "extract" and seg_["kind"] == "fn" and "props" not in seg_["opts"] and sub["meta"]["props"]:
+                            seg_["opts"]["props"] = ",".join(sub["meta"]["props"])
                     segs.extend(sub["segments"])
                     meta.setdefault("expects", []).extend(sub["meta"].get("expects", []))
                     for b in sub["meta"].get("pc_twins", []):
